@@ -3,8 +3,10 @@ package main
 import (
 	"fmt"
 	"go/ast"
+	"go/constant"
 	"go/token"
 	"go/types"
+	"os"
 	"sort"
 	"strings"
 
@@ -16,7 +18,7 @@ func init() { register("C08", propC08) }
 const searcherPkg = "search/searcher"
 
 func propC08(r *Report, tier string) {
-	r.Explanation = "Structural necessary conditions of 'ascending ids; Advance lands on the first match at/after the target': (a) K13 every concrete search.Searcher in bleve defines Next and Advance; (b) K12 look-ahead guard: in every compound searcher's Advance (and the guarded child advances inside BooleanSearcher.Next) each delegated child.Advance(ctx, target) cannot be reached on the branch edge on which the cached position of that searcher compared AT-OR-AFTER the target (Compare(target) >= 0 true / < 0 false): a child already at or past the target is never advanced again; comparisons with the off-by-one operators (>, <=) are violations; the compared value is the value passed on; the method ends by delegating to its own Next; (c) the three places that recompute BooleanSearcher's cursor agree; (d) scorch term-field reader: backward-target re-seek guard present, global id = offsets[k] + local number with the same k that indexes the iterator, in Next and Advance; (e) K14 segment offsets advance by the full segment count (shared with C05). (f) K14 NestedConjunctionSearcher: whenever a child's current match is replaced (Next/Advance) its ancestor chain and join key slots of the same index are recomputed on the continuing path; (g) K6 the 1-hit unadorned iterator reports exhaustion only in (or after entering) the finished state and consumes its hit when returning it."
+	r.Explanation = "Structural necessary conditions of 'ascending ids; Advance lands on the first match at/after the target': (a) K13 every concrete search.Searcher in bleve defines Next and Advance; (b) K12 look-ahead guard: in every compound searcher's Advance (and the guarded child advances inside BooleanSearcher.Next) each delegated child.Advance(ctx, target) cannot be reached on the branch edge on which the cached position of that searcher compared AT-OR-AFTER the target (Compare(target) >= 0 true / < 0 false): a child already at or past the target is never advanced again; comparisons with the off-by-one operators (>, <=) are violations; the compared value is the value passed on; the method ends by delegating to its own Next; (c) the three places that recompute BooleanSearcher's cursor agree; (d) scorch term-field reader: backward-target re-seek guard present, global id = offsets[k] + local number with the same k that indexes the iterator, in Next and Advance; (e) K14 segment offsets advance by the full segment count (shared with C05). (f) K14 NestedConjunctionSearcher: whenever a child's current match is replaced (Next/Advance) its ancestor chain and join key slots of the same index are recomputed on the continuing path; (g) K6 the 1-hit unadorned iterator reports exhaustion only in (or after entering) the finished state and consumes its hit when returning it; (h) K3 in Next/Advance of the lazily initialised compound searchers every step of a child is dominated by a test of the initialised flag."
 	r.NotCovered = "monotonicity of Next itself and the correctness of the merge loops of conjunction/disjunction/phrase (value reasoning over all streams)"
 	ruleSearcherMethodSets(r, "K13-searcher-methods")
 	ruleLookAheadGuard(r, "K12-lookahead-guard")
@@ -31,6 +33,7 @@ func propC08(r *Report, tier string) {
 	ruleNestedAdvanceTargetsJoinLevel(r, "K5dep-nested-advance-join-level")
 	ruleFirstCallFlagSiblings(r, "K12-first-call-flag", "index/upsidedown", "UpsideDownCouchTermFieldReader")
 	rulePooledObjectReset(r, "K9b-pooled-tfr-reset", "index/scorch", "IndexSnapshotTermFieldReader", []string{"Next", "Advance"}, "index/scorch.(*IndexSnapshot).TermFieldReader", "index/scorch.(*IndexSnapshot).recycleTermFieldReader")
+	ruleLazyInitBeforeChildren(r, "K3-lazy-init-before-children")
 	in := findIntroducers(r.P)
 	ruleOffsetsAlignment(r, "K14-offsets-alignment", snapshotConstructors(r, in))
 	r.Floor("K13-searcher-methods", 10)
@@ -526,4 +529,159 @@ func ruleTFRGlobalIDs(r *Report, rule string) {
 		}
 	}
 	r.Ob(rule, adv.Name+"/backward-target-reseeks", adv.Decl.Pos(), okSeek && len(bad) == 0, "when the current position is already at/after the target (`currID.Compare(ID) >= 0`) the reader is re-opened (or the unadorned iterators reset) before positioning, so Advance never answers from a stale forward-only iterator")
+}
+
+// ruleLazyInitBeforeChildren (K3): the compound searchers position their
+// children lazily - a boolean field is set by the one method that fetches every
+// child's first match, and the stepping methods start with a test of it.  In
+// Next and Advance of such a type every call that steps a child (an interface
+// call of search.Searcher.Next/Advance) must be dominated by a test of that
+// field: stepping children first and initialising afterwards (through the
+// trailing s.Next) fetches the children's first matches a second time and the
+// first conjunction/disjunction match at or after the target is skipped.
+func ruleLazyInitBeforeChildren(r *Report, rule string) {
+	p := r.P
+	pk := p.Pkg("search/searcher")
+	if pk == nil {
+		undecidedf("package search/searcher not loaded")
+	}
+	info := pk.TypesInfo
+	// methods by receiver type
+	byType := map[string][]*FuncInfo{}
+	for _, fi := range p.flist {
+		if fi.Pkg != pk || fi.Decl == nil || fi.Decl.Body == nil || fi.Decl.Recv == nil {
+			continue
+		}
+		if ro := recvObj(fi); ro != nil {
+			if nt := namedOf(ro.Type()); nt != nil {
+				byType[nt.Obj().Name()] = append(byType[nt.Obj().Name()], fi)
+			}
+		}
+	}
+	var tnames []string
+	for t := range byType {
+		tnames = append(tnames, t)
+	}
+	sort.Strings(tnames)
+	n := 0
+	for _, tn := range tnames {
+		tobj, _ := pk.Types.Scope().Lookup(tn).(*types.TypeName)
+		if tobj == nil {
+			continue
+		}
+		st, _ := tobj.Type().Underlying().(*types.Struct)
+		if st == nil {
+			continue
+		}
+		for i := 0; i < st.NumFields(); i++ {
+			fld := st.Field(i)
+			if b, ok := fld.Type().Underlying().(*types.Basic); !ok || b.Kind() != types.Bool {
+				continue
+			}
+			// set to true by exactly one method, tested (negated) by some stepping method
+			setters := 0
+			for _, m := range byType[tn] {
+				for _, s := range storesToField(info, m.Decl.Body, tn, fld.Name()) {
+					if tv, ok := info.Types[s.Rhs]; s.Rhs != nil && ok && tv.Value != nil && tv.Value.Kind() == constant.Bool && constant.BoolVal(tv.Value) {
+						setters++
+					}
+				}
+			}
+			if setters != 1 {
+				continue
+			}
+			tested := false
+			for _, m := range byType[tn] {
+				if m.Decl.Name.Name != "Next" && m.Decl.Name.Name != "Advance" {
+					continue
+				}
+				ast.Inspect(m.Decl.Body, func(x ast.Node) bool {
+					if is, ok := x.(*ast.IfStmt); ok {
+						if u, ok := ast.Unparen(is.Cond).(*ast.UnaryExpr); ok && u.Op == token.NOT && isField(info, u.X, tn, fld.Name()) {
+							tested = true
+						}
+					}
+					return true
+				})
+			}
+			if !tested {
+				continue
+			}
+			// own helper methods that step a child (not the initialiser, not the stepping methods themselves)
+			ifaceStep := func(c *ast.CallExpr) bool {
+				f := callee(info, c)
+				if f == nil || (f.Name() != "Next" && f.Name() != "Advance") {
+					return false
+				}
+				sig, _ := f.Type().(*types.Signature)
+				if sig == nil || sig.Recv() == nil {
+					return false
+				}
+				_, isIface := sig.Recv().Type().Underlying().(*types.Interface)
+				return isIface
+			}
+			stepHelpers := map[string]bool{}
+			for _, m := range byType[tn] {
+				if m.Decl.Name.Name == "Next" || m.Decl.Name.Name == "Advance" {
+					continue
+				}
+				isInit := false
+				for _, s := range storesToField(info, m.Decl.Body, tn, fld.Name()) {
+					if s.Rhs != nil {
+						isInit = true
+					}
+				}
+				if isInit {
+					continue
+				}
+				for _, c := range callsIn(m.Decl.Body) {
+					if ifaceStep(c) {
+						stepHelpers[m.Name] = true
+					}
+				}
+			}
+			for _, m := range byType[tn] {
+				if m.Decl.Name.Name != "Next" && m.Decl.Name.Name != "Advance" {
+					continue
+				}
+				g := buildCFG(info, m.Decl.Body)
+				var reads []ast.Node
+				ast.Inspect(m.Decl.Body, func(x ast.Node) bool {
+					if _, isLit := x.(*ast.FuncLit); isLit {
+						return false
+					}
+					if sel, ok := x.(*ast.SelectorExpr); ok && isField(info, sel, tn, fld.Name()) {
+						reads = append(reads, sel)
+					}
+					return true
+				})
+				k := 0
+				for _, c := range callsIn(m.Decl.Body) {
+					// s.Next(ctx) is the type's own method and tests the flag itself; a helper that steps a child counts
+					if f := callee(info, c); !ifaceStep(c) && (f == nil || !stepHelpers[funcName(f)]) {
+						continue
+					}
+					if _, located := g.Locate(c); !located {
+						continue
+					}
+					dominated := false
+					for _, rd := range reads {
+						if g.DominatesNode(rd, c) {
+							dominated = true
+						}
+					}
+					n++
+					k++
+					if os.Getenv("VERIF_DEBUG") != "" {
+						fmt.Println("lazy-init:", m.Name, exprStr(c), dominated)
+					}
+					r.Fn(m)
+					r.Ob(rule, fmt.Sprintf("%s/child-step#%d-after-test-of-%s", m.Name, k, fld.Name()), c.Pos(), dominated, "a child searcher is stepped here before the lazily-initialised state ("+fld.Name()+") was looked at: when this is the first call, the later initialisation fetches the children's first matches again and a match is skipped")
+				}
+			}
+		}
+	}
+	if n < 10 {
+		undecidedf("lazy-initialisation protocol of the compound searchers not recognised (%d child steps)", n)
+	}
 }
